@@ -296,6 +296,30 @@ def rand_nfa(rng, nq=None, nedges=None, sigma=None):
     return {"start": start, "fin": fin, "delta": delta}, sigma
 
 
+HUB_QUICK = list(range(1, 14)) + [15, 16, 17, 31, 32, 33, 64, 65]
+HUB_THOROUGH = list(range(1, 70)) + [127, 128, 129, 255, 256, 257]
+
+
+def hub_nfa_pair(rng, k):
+    """the HUB family (size thresholds on the number of symbols leaving one state): A has a state with k distinct outgoing symbols,
+    B a state with far fewer (or the other way round), some in common; short words, small automata"""
+    sig = ["s%d" % i for i in range(k)]
+    def hub(nsyms, tag):
+        use = rng.sample(sig, nsyms)
+        delta = [[0, a, rng.choice([1, 2])] for a in use]
+        delta += [[rng.choice([1, 2]), rng.choice(sig), rng.choice([0, 1, 2])] for _ in range(rng.choice([0, 1, 2]))]
+        d2 = []
+        for e in delta:
+            if e not in d2:
+                d2.append(e)
+        return {"start": [0], "fin": [rng.choice([1, 2])] + ([0] if rng.random() < 0.2 else []), "delta": d2}
+    small = rng.choice([1, 2, 3, max(1, k // 3), max(1, k // 2 - 1)])
+    A, B = hub(k, "a"), hub(min(small, k), "b")
+    if rng.random() < 0.3:
+        A, B = B, A
+    return A, B, sig
+
+
 def nfa_states(a):
     s = set(a["start"]) | set(a["fin"])
     for e in a["delta"]:
